@@ -494,6 +494,9 @@ FAMILIES = {
            ("setlist", "sxxx", 1), ("removeall", "s", 1), ("map1x", "s", 1), ("map1", "ss", 1), ("front", "s", 2), ("back", "s", 2), ("empty", "s", 1)],
 }
 FAMILIES["hmap"] = FAMILIES["map"]
+# (chibi iset) inside the Coq model (coq/C18/ISet.v): the operations the model mirrors; the dump is the real tree
+FAMILIES["isett"] = [("adjoin", "vx", 10), ("adjoin2", "vxx", 2), ("adjoinx", "vx", 2), ("delete", "vx", 6), ("deletex", "vx", 2), ("union", "vv", 2),
+                     ("unionx", "vv", 1), ("copy", "v", 1), ("oflist", "xxx", 1), ("has", "vx", 4), ("size", "v", 2), ("sum", "v", 1), ("empty", "v", 1)]
 QUERY_OPS = {"has", "size", "subset", "psubset", "equal", "disjoint", "countmod", "sum", "empty", "count", "usize", "ref", "sumv", "keys", "car",
              "len", "front", "back", "eq", "partition", "splitat", "span", "index", "last", "any", "every", "foldr", "foldl", "skip", "indexr", "bsearch"}
 BAG_V_SUM = True     # in the bag family "sum" builds a new version
@@ -505,49 +508,315 @@ def is_query(fam, op):
     return op in QUERY_OPS
 
 
-def elem(rng, fam):
-    if fam == "iset":
+# ---- element universes: one per history, with several scales at once.  W is the width at which the family's
+# representation changes shape: 128 = bits-thresh of (chibi iset), 32 = bucket of the SRFI 146 HAMT; the default
+# comparator's hash of a fixnum n is basis xor (2n+1) cut to 60 bits, so n + j*32^k share the k lowest trie levels
+# and n + j*2^59 collide completely.
+NODE_W = {"iset": 128, "isett": 128, "hmap": 32}
+ADD_OP = {"set": "adjoin", "iset": "adjoin", "isett": "adjoin", "bag": "adjoin", "map": "set", "hmap": "set"}
+TREE_FAMS = ("set", "iset", "isett", "bag", "map", "hmap")
+
+
+def make_universe(rng, fam):
+    W = NODE_W.get(fam, 16)
+    kind = rng.choice(["small", "dense", "ladder", "ladder", "clusters", "pow2", "mixed", "mixed"] + (["collide", "collide"] if fam == "hmap" else []))
+    base = rng.choice([0, 0, 0, -rng.randrange(1, 3000), rng.randrange(1, 3000), 10 ** 6, -10 ** 6, 1 << rng.choice([8, 12, 16, 20, 30])])
+    def ladder():
+        step = rng.choice([W - 1, W, W + 1, W // 2, 2 * W, W - 28, 3 * W + 5, 100, 7 * W, 1000])
+        n = rng.choice([6, 10, 16, 24])
+        return [base + i * step + rng.choice([0, 0, 0, 1, -1, 10]) for i in range(n)]
+    def clusters():
+        out = []
+        for _ in range(rng.choice([2, 3, 5])):
+            c = base + rng.choice([1, W, 4 * W, 8 * W, 50 * W]) * rng.randrange(-8, 9)
+            out += [c + d for d in rng.sample(range(-W - 2, W + 3), rng.choice([3, 6, 12]))] + [c, c + W - 1, c + W, c + W + 1, c - W, c - W + 1]
+        return out
+    def pow2():
+        return [(1 << k) + d + o for k in rng.sample(range(4, 21), 5) for d in (-2, -1, 0, 1, 2) for o in rng.choice([(0,), (0, 64), (0, -64)])]
+    def small():
+        return list(range(-6, 21))
+    def collide():
+        xs = [rng.randrange(0, 40) for _ in range(4)]
+        out = list(xs)
+        for x in xs:
+            for k in rng.sample(range(1, 12), 3):
+                out += [x + j * 32 ** k for j in (1, 2, rng.randrange(3, 31))]
+            out += [x + j * (1 << 59) for j in (1, 2, 3)]
+        return out
+    if kind == "dense":
+        pool = [base + i for i in range(rng.choice([8, 30, 70, 200, 300]))]
+    elif kind == "mixed":
+        pool = ladder() + clusters()[:20] + small()[:10] + [10 ** 6, 10 ** 6 + 1, 65535, 65536, -1, 0]
+    else:
+        pool = dict(ladder=ladder, clusters=clusters, pow2=pow2, small=small, collide=collide)[kind]()
+    return dict(kind=kind, pool=sorted(set(pool)), used=[], W=W)
+
+
+def order_by(rng, xs, how):
+    xs = sorted(xs)
+    n = len(xs)
+    if how == "asc":
+        return xs
+    if how == "desc":
+        return xs[::-1]
+    if how == "zigzag":                  # lo, hi, lo+1, hi-1, ...
+        out, lo, hi = [], 0, n - 1
+        while lo <= hi:
+            out.append(xs[lo]); lo += 1
+            if lo <= hi:
+                out.append(xs[hi]); hi -= 1
+        return out
+    if how == "endsmid":                 # lo, hi, middle, then the rest ascending: a right child with a lower left descendant
+        if n < 3:
+            return xs
+        m = n // 2
+        return [xs[0], xs[-1], xs[m]] + xs[1:m] + xs[m + 1:-1]
+    if how == "midends":                 # mirror image
+        if n < 3:
+            return xs
+        m = n // 2
+        return [xs[-1], xs[0], xs[m]] + xs[m + 1:-1][::-1] + xs[1:m][::-1]
+    if how == "bitrev":
+        w = max(1, (n - 1).bit_length())
+        return [xs[i] for i in sorted(range(n), key=lambda i: int(format(i, "0%db" % w)[::-1], 2))]
+    if how == "midout":
+        out, lo, hi = [], (n - 1) // 2, (n - 1) // 2 + 1
+        while lo >= 0 or hi < n:
+            if lo >= 0:
+                out.append(xs[lo]); lo -= 1
+            if hi < n:
+                out.append(xs[hi]); hi += 1
+        return out
+    xs = list(xs)
+    rng.shuffle(xs)
+    return xs
+
+
+ORDERS = ["asc", "desc", "zigzag", "endsmid", "midends", "bitrev", "midout", "random", "random"]
+
+
+def elem(rng, fam, uni=None):
+    if uni is not None:
         r = rng.random()
-        if r < 0.5:
-            return rng.randrange(0, 70)
-        if r < 0.8:
-            k = rng.choice([5, 6, 7, 8, 9, 10, 12, 16])
-            return (1 << k) + rng.choice([-2, -1, 0, 1, 2]) + rng.choice([0, 0, 64, -64])
-        if r < 0.9:
-            return -rng.randrange(1, 200)
-        return rng.choice([10 ** 6, 10 ** 6 + 1, 123456, 99999, 4095, 4096, 4097, 65535, 65536])
-    if fam in ("set", "bag", "map", "hmap"):
-        return rng.randrange(-6, 21) if rng.random() < 0.93 else rng.choice([10 ** 6, -10 ** 6, 10 ** 9 + 7, 255, 256])
+        if uni["used"] and r < 0.40:
+            return rng.choice(uni["used"][-40:])
+        if uni["used"] and r < 0.55:
+            return rng.choice(uni["used"][-40:]) + rng.choice([-1, 1, -1, 1, uni["W"], -uni["W"], uni["W"] - 1, 1 - uni["W"]])
+        return rng.choice(uni["pool"])
     return rng.randrange(-5, 10)
 
 
-def gen_history(rng, fam, length):
-    ops = FAMILIES[fam]
-    weights = [w for (_, _, w) in ops]
-    nver = 1
-    prog = []
-    for _ in range(length):
-        name, kinds, _w = rng.choices(ops, weights)[0]
+class Hist:
+    """a history under construction: emits operations and keeps the version count"""
+
+    def __init__(self, rng, fam, uni=None):
+        self.rng, self.fam, self.uni, self.prog, self.nver = rng, fam, uni, [], 1
+        self.kinds = {n: (k, w) for (n, k, w) in FAMILIES[fam]}
+
+    def newest(self):
+        return self.nver - 1
+
+    def emit(self, name, args):
+        self.prog.append((name, list(args)))
+        if self.fam != "lq" and not is_query(self.fam, name):
+            self.nver += 1
+
+    def add(self, x, v=None):
+        """the family's insertion of x into version v (newest by default)"""
+        v = self.newest() if v is None else v
+        name = ADD_OP[self.fam]
+        self.emit(name, [v, x, self.rng.randrange(-5, 10)] if len(self.kinds[name][0]) == 3 else [v, x])
+        if self.uni is not None:
+            self.uni["used"].append(x)
+
+    def random_op(self, recent=0.7):
+        rng, fam = self.rng, self.fam
+        ops = FAMILIES[fam]
+        name, kinds, _w = rng.choices(ops, [w for (_, _, w) in ops])[0]
         args = []
-        for k in kinds:
+        for i, k in enumerate(kinds):
             if k == "v":
                 # mostly the newest versions, but regularly an old one: persistence
-                args.append(nver - 1 - min(nver - 1, rng.choice([0, 0, 0, 1, 1, 2])) if rng.random() < 0.7 else rng.randrange(nver))
+                args.append(self.nver - 1 - min(self.nver - 1, rng.choice([0, 0, 0, 1, 1, 2])) if rng.random() < recent else rng.randrange(self.nver))
             elif k == "x":
-                args.append(elem(rng, fam))
+                x = elem(rng, fam, self.uni)
+                args.append(x)
+                # only the element position of set/bag/map ops enters the pool of used keys (position 1), not values
+                if self.uni is not None and i == 1 and not is_query(fam, name) and name in ("adjoin", "adjoin2", "adjoinx", "set", "setx", "incr", "bump"):
+                    self.uni["used"].append(x)
             elif k == "i":
-                args.append(rng.randrange(0, 40))
+                args.append(rng.randrange(0, 40) if rng.random() < 0.8 else rng.randrange(0, 300))
             elif k == "m":
                 args.append(rng.choice([2, 3]))
             elif k == "n":
                 args.append(rng.choice([1, 1, 2, 3]))
             elif k == "s":
                 args.append(rng.randrange(3))
-        prog.append((name, args))
-        if fam != "lq" and not is_query(fam, name):
-            nver += 1
-    return prog
+        self.emit(name, args)
 
+
+def gen_history(rng, fam, length):
+    """uniformly mixed operations over a per-history multi-scale universe"""
+    h = Hist(rng, fam, make_universe(rng, fam) if fam in TREE_FAMS else None)
+    for _ in range(length):
+        h.random_op()
+    return h.prog
+
+
+def gen_build_history(rng, fam, length):
+    """tree-shaped containers: a long build-up in a chosen insertion order (skeleton), growth walks from existing
+    elements in steps below/at/above the node width, a mixed phase, then deletions in a chosen order"""
+    uni = make_universe(rng, fam)
+    h = Hist(rng, fam, uni)
+    W = uni["W"]
+    pool = uni["pool"]
+    nskel = min(len(pool), rng.choice([3, 4, 6, 10, 20, 40]), max(3, length // 3))
+    skel = order_by(rng, rng.sample(pool, nskel), rng.choice(ORDERS))
+    for x in skel:
+        h.add(x)
+    budget = length - len(h.prog)
+    for _ in range(rng.choice([0, 1, 1, 2, 3])):
+        if budget <= 4:
+            break
+        x0 = rng.choice(skel)
+        d = rng.choice([1, 1, -1, -1])
+        step = rng.choice([1, 1, 2, 7, W // 2, W - 28, W - 1, W - 1, W, W + 1])
+        n = min(budget // 2, rng.choice([3, 6, 10, 20, 40]))
+        for i in range(1, n + 1):
+            h.add(x0 + d * i * step)
+        budget = length - len(h.prog)
+    nmix = max(0, (length - len(h.prog)) // 2)
+    for _ in range(nmix):
+        h.random_op(recent=0.85)
+    # deletions of what was inserted, on the newest version, with membership queries between
+    dels = order_by(rng, list(dict.fromkeys(uni["used"])), rng.choice(ORDERS))
+    qop = "ref" if fam in ("map", "hmap") else ("count" if fam == "bag" else "has")
+    dop = "decr" if fam == "bag" else "delete"
+    for x in dels:
+        if len(h.prog) >= length:
+            break
+        h.emit(dop, [h.newest(), x, 1] if fam == "bag" else [h.newest(), x])
+        if rng.random() < 0.2:
+            h.emit(qop, [h.newest(), rng.choice(dels)])
+        if rng.random() < 0.1:
+            h.add(rng.choice(dels))
+    return h.prog
+
+
+def gen_seq_build_history(rng, fam, length):
+    """random-access lists / deques: sizes around 2^k-1 (skew-binary digits) and around the ideque rebalancing
+    thresholds, then reads/writes at every digit boundary and removal down to empty"""
+    h = Hist(rng, fam)
+    k = rng.choice([1, 2, 3, 4, 5, 6, 7] if length >= 150 else [1, 2, 3, 4, 5])
+    n = max(0, (1 << k) - 1 + rng.choice([-1, 0, 0, 1, 2]))
+    n = min(n, max(1, length // 2))
+    if fam == "ra":
+        for i in range(n):
+            h.emit("cons", [h.newest(), i])
+        built = h.newest()
+        idx = sorted(set([0, n - 1] + [(1 << j) - 1 + d for j in range(0, 8) for d in (-1, 0, 1) if 0 <= (1 << j) - 1 + d < n] + [rng.randrange(n) for _ in range(4)])) if n else []
+        for i in idx:
+            h.emit("ref", [built, i])
+        for i in idx[:: max(1, len(idx) // 8)]:
+            h.emit("set", [built, i, 99])
+            h.emit("ref", [h.newest(), i])
+            h.emit("tail", [built, i])
+        cur = built
+        while len(h.prog) < length - 2 and n > 0:
+            h.emit("cdr", [cur]); cur = h.newest(); n -= 1
+            if rng.random() < 0.3:
+                h.emit("ref", [cur, rng.randrange(0, 40)])
+            if rng.random() < 0.15:
+                h.emit("cons", [cur, 7]); cur = h.newest(); n += 1
+    else:
+        front = rng.choice(["addf", "addb", "mixed"])
+        for i in range(n):
+            h.emit("addf" if front == "addf" or (front == "mixed" and rng.random() < 0.5) else "addb", [h.newest(), i])
+        built = h.newest()
+        for i in sorted(set([0, max(0, n - 1), n // 2, n // 3, (2 * n) // 3])):
+            h.emit("ref", [built, i]); h.emit("take", [built, i]); h.emit("dropr", [built, i])
+        cur = built
+        rem = rng.choice(["remb", "remf", "alt"])
+        j = 0
+        while len(h.prog) < length - 2 and n > 0:
+            op = rem if rem != "alt" else ("remb" if j % 2 else "remf")
+            j += 1
+            h.emit(op, [cur]); cur = h.newest(); n -= 1
+            if rng.random() < 0.3:
+                h.emit(rng.choice(["front", "back", "len"]), [cur])
+            if rng.random() < 0.2:
+                h.emit("ref", [cur, rng.randrange(0, 40)])
+    return h.prog
+
+
+def hist_of(fam, steps):
+    """a straight-line history: each step (op, x...) applies to the newest version; ("v", op, args) is literal"""
+    h = Hist(None, fam)
+    for st in steps:
+        if st[0] == "v":
+            h.emit(st[1], st[2])
+        else:
+            h.emit(st[0], [h.newest()] + list(st[1:]))
+    return h.prog
+
+
+def targeted_histories(rng):
+    """shape-targeted histories derived from the case splits of the code; every one also under a random translation"""
+    out = []
+    # ---- (chibi iset): should-merge-left/right with deeper descendants, growth past a descendant, range vs bit
+    # nodes, split on delete in the middle of a range, adjoin at node boundaries +-1 and at gaps 127/128/129
+    def iset_cases(t, m):
+        f = lambda xs: [t + m * x for x in xs]
+        cs = []
+        cs.append([("adjoin", x) for x in f([0, 1000, 500, 100, 200, 300, 400, 510])])                 # right child's left descendant
+        cs.append([("adjoin", x) for x in f([0, 2000, 1000, 500, 750, 100, 200, 300, 400, 510, 600, 700, 760])])  # two levels down
+        cs.append([("adjoin", x) for x in f([1000, 0, 500, 900, 800, 700, 600, 490])])                 # mirror: left child's right descendant
+        cs.append([("adjoin", x) for x in f([0, 127, 128 + 127, 129 + 127 + 128, 1000, 1000 - 128, 1000 - 255])])     # gaps 127 / 128 / 129
+        cs.append([("adjoin", x) for x in f(range(10, 21))] + [("delete", t + m * 15), ("delete", t + m * 10), ("delete", t + m * 20),
+                  ("adjoin", t + m * 15), ("delete", t + m * 16), ("delete", t + m * 14), ("adjoin", t + m * 14)])          # range node split
+        cs.append([("adjoin", t)] + [("delete", t)] + [("adjoin", t + 500), ("adjoin", t + 1), ("delete", t + 500), ("delete", t + 1), ("adjoin", t - 300)])  # emptied nodes
+        # union with ranges / bitmaps straddling a node's boundaries: the node-split general case
+        for ab in [((10, 20), (5, 25)), ((10, 20), (15, 25)), ((10, 20), (5, 15)), ((10, 20), (21, 30)), ((10, 20), (0, 9)), ((10, 200), (150, 400))]:
+            cs.append(ab)
+        return cs
+    for (t, m) in [(0, 1), (rng.randrange(-5000, 5000), 1), (10 ** 6, 1), (rng.randrange(-500, 500), -1)]:
+        for c in iset_cases(t, m):
+            for fam in ("iset", "isett"):
+                if isinstance(c, tuple):
+                    a, b = c
+                    h = Hist(None, fam)
+                    for x in range(a[0], a[1] + 1, 1 if a[1] - a[0] < 50 else 37):
+                        h.emit("adjoin", [h.newest(), t + x])
+                    va = h.newest()
+                    vb = 0
+                    for x in range(b[0], b[1] + 1, 1 if b[1] - b[0] < 50 else 41):
+                        h.emit("adjoin", [vb, t + x]); vb = h.newest()
+                    h.emit("union", [va, vb]); h.emit("union", [vb, va]); h.emit("unionx", [va, vb])
+                    if fam == "iset":
+                        h.emit("inter", [va, vb]); h.emit("diff", [va, vb]); h.emit("diff", [vb, va]); h.emit("inter", [vb, va])
+                    out.append((fam, h.prog))
+                else:
+                    out.append((fam, hist_of(fam, c)))
+    # ---- SRFI 146 mapping (red-black tree): ascending / descending / zig-zag builds then deletions that meet every
+    # rotate / balance / min+delete clause (double-black = "white" nodes come from deleting black leaves)
+    for n in (3, 7, 8, 15, 16, 33):
+        for ins in ("asc", "desc", "zigzag", "bitrev", "midout"):
+            for dele in ("asc", "desc", "midout", "zigzag", "bitrev"):
+                if n > 16 and (ins, dele) not in (("asc", "midout"), ("desc", "asc"), ("bitrev", "desc"), ("zigzag", "bitrev")):
+                    continue
+                keys = order_by(rng, list(range(0, 3 * n, 3)), ins)
+                st = [("set", k, k % 7) for k in keys] + [("delete", k) for k in order_by(rng, keys, dele)]
+                for fam in ("map", "hmap"):
+                    out.append((fam, hist_of(fam, st)))
+    # ---- HAMT: keys sharing 1..11 trie levels and complete collisions; deletion compresses the path again
+    for x in (0, 5, 31):
+        ks = [x] + [x + j * 32 ** k for k in (1, 2, 3, 6, 11) for j in (1, 2)] + [x + (1 << 59), x + (2 << 59), x + (3 << 59)]
+        for ordn in ("asc", "desc", "zigzag"):
+            keys = order_by(rng, ks, ordn)
+            st = [("set", k, i) for i, k in enumerate(keys)] + [("ref", k) for k in keys] + [("delete", k) for k in order_by(rng, keys, "midout")]
+            out.append(("hmap", hist_of("hmap", st)))
+            out.append(("map", hist_of("map", st)))
+    return out
 
 def hist_scheme(fam, prog):
     body = " ".join("(%s %s)" % (n, " ".join(map(str, a))) for n, a in prog)
@@ -597,19 +866,47 @@ def hist_replay(expr, expected):
             "> /tmp/c18-replay.scm; chibi-scheme /tmp/c18-replay.scm   # answers are separated by ';'; expected answer of the last operation: %s" % (expr, expected))
 
 
+def strip_shapes(t):
+    """an isett answer is <tree>/<listing><marks>: drop the tree"""
+    return re.sub(r"\([^;|/]*/", "", t)
+
+
 def check_histories(ctx, d, exe, corpus_hist=()):
     rng = ctx.rng
     prelude = open(os.path.join(HERE, "..", "harness", "c18_hist.scm")).read()
-    per = 40 if not ctx.thorough else 1500
+    per = 30 if not ctx.thorough else 1200
     items = list(corpus_hist)
+    ntarget = 0
+    for it in targeted_histories(rng):
+        items.append(it); ntarget += 1
     for fam in FAMILIES:
         for k in range(per):
             length = rng.choice([3, 8, 20, 50, 100, 200]) if k % 4 else 200
             items.append((fam, gen_history(rng, fam, length)))
+        if fam in TREE_FAMS:
+            # iset / isett get the larger share: their node width (128) needs long growth walks
+            nb = (per if fam not in ("iset", "isett") else 2 * per)
+            for k in range(nb):
+                items.append((fam, gen_build_history(rng, fam, rng.choice([30, 60, 120, 200]))))
+        if fam in ("ra", "deque"):
+            for k in range(per):
+                items.append((fam, gen_seq_build_history(rng, fam, rng.choice([40, 100, 200, 300]))))
+    ctx.note("container histories: %d shape-targeted, %d in all" % (ntarget, len(items)))
     exprs = [hist_scheme(f, p) for f, p in items]
     reqs = [hist_model(f, p) for f, p in items]
+    import time as _t
+    t0 = _t.time()
     spec = ctx.run_model(exe, reqs)
+    t1 = _t.time()
+    # the model's trees (coq/C18/ISet.v) list exactly the set the abstract oracle holds (theorems iset_*_refines_set)
+    tre = [i for i, (f, _p) in enumerate(items) if f == "isett"]
+    orc = ctx.run_model(exe, [hist_model("iset", items[i][1]) for i in tre])
+    for i, o in zip(tre, orc):
+        if strip_shapes(spec[i]) != o:
+            ctx.broken("model:iset-tree-vs-set-oracle", "the extracted iset model and the set oracle differ on %s" % reqs[i][:1500])
+            break
     impl = scm.run_cases(d, exprs, prelude_extra=prelude, chunk=200)
+    ctx.note("history wall time: model %.1f s, implementation %.1f s" % (t1 - t0, _t.time() - t1))
     seen = set()
     nerr = {}
     for (fam, prog), e, s, out in zip(items, exprs, spec, impl):
@@ -620,6 +917,16 @@ def check_histories(ctx, d, exe, corpus_hist=()):
             continue
         got = out[1:-1].replace('\\"', '"') if out and out.startswith('"') else out      # run_cases writes the string
         if got == s:
+            continue
+        if fam == "isett" and got is not None and strip_shapes(got) == strip_shapes(s):
+            # the listing and every query agree, only the tree differs from the model's tree: the theorems about
+            # coq/C18/ISet.v no longer speak about this code (a harmless rewrite can cause this)
+            so, go = s.split("|")[0].split(";"), got.split("|")[0].split(";")
+            k = next((i for i in range(min(len(so), len(go))) if so[i] != go[i]), 0)
+            if "inner:iset-tree-shape" not in seen:
+                seen.add("inner:iset-tree-shape")
+                ctx.broken("inner:iset-tree-shape", "after operation %d %s of %s the real tree is %s but the model's (coq/C18/ISet.v) is %s; contents agree"
+                           % (k, prog[k] if k < len(prog) else "?", hist_scheme(fam, prog[:k + 1])[:1500], go[k][:400], so[k][:400]))
             continue
         if got is None or not got.endswith("]") and ("ERR" in got or "CRASH" in got or "TIMEOUT" in got):
             # the history died: find the shortest prefix that dies (an operation only depends on earlier versions)
